@@ -98,6 +98,22 @@ theorem rtsp_session_total (cdc : Sdp.Codec) (ws : Bool) (auth : Nat) (d : RtspS
     ∃ r, RtspSrv.runSession cdc ws auth d toks = .ok r :=
   RtspSrv.runSession_ok cdc ws auth d toks
 
+/-- lal's own message reader `readHttpMessage` (what both command sessions read requests / responses with), the step behind
+    the header section: whatever `Content-Length` the peer announces (absent, not a number, any Go int) and whatever bytes
+    follow, no `makeslice` panic; the body is part of what was received and never longer than `maxHttpMsgBodyLength`. -/
+theorem rtsp_msg_total (cl : RtspSrv.ContentLength) (avail : Bytes) :
+    NoPanic (RtspSrv.readMsgBody cl avail)
+      ∧ ∀ body rest, RtspSrv.readMsgBody cl avail = .ok (some (body, rest)) → body ++ rest = avail ∧ body.length ≤ Gen.maxHttpMsgBodyLength :=
+  ⟨RtspSrv.readMsgBody_noPanic cl avail, fun body rest h => RtspSrv.readMsgBody_bounded cl avail body rest h⟩
+
+/-- `nazahttp.ReadHttpMessage`, which lal called until the fix, allocates whatever Atoi returned: `Content-Length: -1` in one
+    unauthenticated request ended the process (finding C13-naza-content-length); lal's reader answers with an error. -/
+example : isPanic (RtspSrv.readMsgBodyNaza (.val (-1)) []) = true := by decide
+example : RtspSrv.readMsgBody (.val (-1)) [] = .error .err := by decide
+example : RtspSrv.readMsgBody (.val 1048577) [] = .error .err := by decide
+example : RtspSrv.readMsgBody (.val 3) [1, 2, 3, 4] = .ok (some ([1, 2, 3], [4])) := by decide
+example : RtspSrv.readMsgBody (.val 1048576) [1, 2, 3, 4] = .ok none := by decide
+
 /-! ### WebSocket frames -/
 
 /-- `base.ReadWsPayload` on every byte string. -/
@@ -148,7 +164,7 @@ example : (UrlCtx.parseRtmpUrl ⟨true, Sdp.asc "rtmp", Sdp.asc "h", Sdp.asc "/a
 /-- The numbers the models use are the ones of the source tree. -/
 theorem consts_agree :
     RtspIn.unpackerItemMaxSize = Gen.unpackerItemMaxSize ∧ Gen.rtcpHeaderLength = 4 ∧ Gen.rtcpSrMinLength = 28 ∧ Gen.rtcpPacketTypeSr = 200
-    ∧ Gen.rtpFixedHeaderLen = 12 ∧ 0 < Gen.maxUnpackRtpListSize
+    ∧ Gen.rtpFixedHeaderLen = 12 ∧ 0 < Gen.maxUnpackRtpListSize ∧ RtspSrv.maxHttpMsgBodyLength = Gen.maxHttpMsgBodyLength
     ∧ [Gen.psPackHeader, Gen.psSystemHeader, Gen.psProgramStreamMap, Gen.psAudioStream, Gen.psVideoStream, Gen.psPesPrivate2, Gen.psPesEcm,
        Gen.psPesEmm, Gen.psPesPadding, Gen.psPackEnd, Gen.psHikStream, Gen.psPesPsd]
       = [0x1ba, 0x1bb, 0x1bc, 0x1c0, 0x1e0, 0x1bf, 0x1f0, 0x1f1, 0x1be, 0x1b9, 0x1bd, 0x1ff]
